@@ -49,7 +49,7 @@ func genPerm(rt *rapid.T, faults bool, lateFaults ...bool) permProg {
 	p.Stranger = rapid.Bool().Draw(rt, "stranger")
 	n := rapid.IntRange(4, 18).Draw(rt, "nacts")
 	kinds := []string{"sub", "sub", "setself", "setself", "setother", "setother", "setother", "unsub", "delsub", "deltopic", "setdesc", "settags", "leave",
-		"subfnd", "subsys", "subp2pname", "detachedset", "reload", "getsub", "setprivate"}
+		"subfnd", "subsys", "subp2pname", "detachedset", "reload", "getsub", "setprivate", "pub", "delmsg", "setdesc"}
 	for i := 0; i < n; i++ {
 		a := permAct{
 			Client: rapid.IntRange(0, 9).Draw(rt, "client"),
@@ -440,6 +440,8 @@ func runPerm(t *testing.T, sched simrt.Schedule, prog permProg) ([]Violation, Ru
 				e.Kind, e.Topic = "leave", w.globalName(p.C, m.Leave.Topic)
 			case m.Del != nil:
 				e.Kind, e.Topic = "del", w.globalName(p.C, m.Del.Topic)
+			case m.Pub != nil:
+				e.Kind, e.Topic = "pub", w.globalName(p.C, m.Pub.Topic)
 			default:
 				return
 			}
@@ -485,7 +487,7 @@ func runPerm(t *testing.T, sched simrt.Schedule, prog permProg) ([]Violation, Ru
 				}
 			}
 			cause := faultedHandler(m, e.Actor.UserId())
-			if strings.HasPrefix(e.Topic, "p2p") {
+			if strings.HasPrefix(e.Topic, "p2p") && e.Kind != "pub" && !(m.Del != nil && m.Del.What == "msg") {
 				cause += "-p2p"
 			}
 			dv := div.filter(cacheVsStore(w, post, where), cause, detachedDiverged)
@@ -509,7 +511,7 @@ func runPerm(t *testing.T, sched simrt.Schedule, prog permProg) ([]Violation, Ru
 			if refused || !s.Answered {
 				if d := w.Disk.Dump(); d != e.DiskDump {
 					cat := ""
-					if strings.HasPrefix(e.Topic, "p2p") {
+					if strings.HasPrefix(e.Topic, "p2p") && e.Kind != "pub" && !(m.Del != nil && m.Del.What == "msg") {
 						cat = "-p2p"
 					}
 					sig := diffSignature(e.DiskDump, d)
@@ -676,6 +678,7 @@ func runPerm(t *testing.T, sched simrt.Schedule, prog permProg) ([]Violation, Ru
 			}
 		}
 
+		pubN := 0
 		for _, a := range prog.Acts {
 			c := w.Clients[a.Client%len(w.Clients)]
 			if ntop := len(sc.Groups) + len(sc.P2P); ntop > 0 {
@@ -710,8 +713,15 @@ func runPerm(t *testing.T, sched simrt.Schedule, prog permProg) ([]Violation, Ru
 			case "deltopic":
 				op = opDelTopic(name, a.Target%2 == 0)
 			case "setdesc":
+				// a nested value: the second and later updates change a key inside the cached nested map
 				op = opMsg(&ClientComMessage{Set: &MsgClientSet{Topic: name, MsgSetQuery: MsgSetQuery{Desc: &MsgSetDesc{
-					Public: map[string]any{"fn": "renamed by " + fmt.Sprint(c.Idx)}, DefaultAcs: &MsgDefaultAcsMode{Auth: a.Mode}}}}})
+					Public: map[string]any{"fn": "renamed by " + fmt.Sprint(c.Idx), "photo": map[string]any{"ref": fmt.Sprintf("img%d.png", a.Target), "type": "png"}},
+					DefaultAcs: &MsgDefaultAcsMode{Auth: a.Mode}}}}})
+			case "pub":
+				pubN++
+				op = opPub(name, fmt.Sprintf("perm%d", pubN), false)
+			case "delmsg":
+				op = opDelMsg(name, a.Target%2 == 0, MsgDelRange{LowId: 1, HiId: 1 + a.Target%3})
 			case "setprivate":
 				op = opMsg(&ClientComMessage{Set: &MsgClientSet{Topic: name, MsgSetQuery: MsgSetQuery{Desc: &MsgSetDesc{Private: map[string]any{"note": fmt.Sprint(a.Target)}}}}})
 			case "settags":
